@@ -117,7 +117,8 @@ def enumerate_scenarios(P):
             for reads in itertools.product([False, True], repeat=n):
                 for order in ('fifo', 'lifo'):
                     for watched in (False, True):
-                        out.append(dict(target='rxlazy', n=n, inputs=ins, reads=reads, order=order, watched=watched))
+                        for stage2 in (None, 'sync', 'coro'):
+                            out.append(dict(target='rxlazy', n=n, inputs=ins, reads=reads, order=order, watched=watched, stage2=stage2))
     return out
 
 
@@ -291,8 +292,20 @@ async def run_rxlazy(sc, rep):
         started.append(key)
         pending[key] = loop.create_future()
         return await pending[key]
+    async def work2(v):
+        key = ('stage2', v, len(started))
+        started.append(key)
+        pending[key] = loop.create_future()
+        return await pending[key]
     root, arg = param.rx(0), param.rx('a0')
     expr = root.rx.pipe(work, arg)
+    # optionally a further stage behind the coroutine stage: a plain function or another coroutine
+    if sc.get('stage2') == 'sync':
+        expr = expr.rx.pipe(lambda v: ('sync', v))
+    elif sc.get('stage2') == 'coro':
+        expr = expr.rx.pipe(work2)
+    def result_of(k):
+        return ('res2', k[1]) if k[0] == 'stage2' else ('res', k[0], k[1])
     seen = []
     if sc['watched']:
         expr.rx.watch(seen.append)
@@ -315,18 +328,22 @@ async def run_rxlazy(sc, rep):
         keys.reverse()
     for k in keys:
         if not pending[k].done():
-            pending[k].set_result(('res', k[0], k[1]))
+            pending[k].set_result(result_of(k))
         await turns()
     # bounded progress: read, let the loop run, complete whatever that started; a handful of rounds suffices
-    for _ in range(5):
+    for _ in range(7):
         outcome_value(expr)
         await turns()
         for k in list(pending):
             if not pending[k].done():
-                pending[k].set_result(('res', k[0], k[1]))
+                pending[k].set_result(result_of(k))
         await turns()
     final = outcome_value(expr)
     exp = ('res', cur[0], cur[1])
+    if sc.get('stage2') == 'sync':
+        exp = ('sync', exp)
+    elif sc.get('stage2') == 'coro':
+        exp = ('res2', exp)
     rep.count('rxlazy_scenarios')
     rep.count('rx_evaluations_started', len(started))
     if final != exp:
